@@ -13,6 +13,17 @@
 //	partSched  (d)  isolation under thread schedules -- NOT IN THIS FILE YET, see the marker below
 //
 // Everything runs in directories /dev/shm/verif-c05-<pid>-*, removed at exit.
+//
+// Violation keys are stable classes ("seq/<call>/<class>[/<circumstance>]",
+// "treap/<kind>/<class>", "fault/<history tag>/<failed call>/<class>",
+// "crash/<history tag>/<cause>/<class>"); for every key the smallest failing case
+// is kept as the replay.  known_findings_suggestion.json in this directory lists
+// the patterns of the defects found on the pinned tree (for /verif/known_findings.json).
+//
+// Development aids (environment, never needed by the harness): C05_PARTS=a,b
+// (run only these parts: probes,treap,seq,fault,crash), C05_HIST=<history names>,
+// C05_BUDGET_S=<seconds> (replaces all time slices), C05_CRASH_DRY=1 (count crash
+// images only), C05_CPUPROFILE=<file>.
 package main
 
 import (
